@@ -31,6 +31,9 @@ func smallMessage(r *rand.Rand) genMsg {
 		g.hdr[i] = byte(r.Intn(256))
 	}
 	ct := []byte{0, 0, 0, 0, 2, 2, 3, byte(r.Intn(8))}[r.Intn(8)]
+	if ct == 1 {
+		ct = 2 // gzip itself is exercised by c01 (the Lean side has no gzip; it mirrors the toy compressors)
+	}
 	g.hdr[2] = (g.hdr[2] &^ 0x1C) | (ct << 2)
 	s := func() string {
 		n := []int{0, 1, 2, 5, 9}[r.Intn(5)]
